@@ -147,16 +147,18 @@ theorem old_readers_dangle (c : Borrow.Carrier) :
 /-- **no load and no store outside the padded buffer** (fourth session): `parse_string_inplace` reads 32-byte blocks and
     `\u` escapes without any bounds check and writes into the buffer it reads; in the model every such access is checked and
     an access outside the buffer is the outcome `fault` (`Impl/StrInplace.lean`).  On the copy `t ++ x"x ++ 61 zero bytes`
-    that `parse_with_padding` makes, started anywhere in the text, strict or lossy, that outcome does not occur — and the
-    function terminates.  (The statement about WHAT it computes is `Thm/C09.inplace_decoder_on_padded_text`; the tie to the
+    that `parse_with_padding` makes — as it is, or as earlier in-place decodings of literals in front of `i` have left it
+    (`mem0`: same size, equal to the copy from `i` on) —, started anywhere in the text, strict or lossy, that outcome does not
+    occur — and the function terminates.  (The statement about WHAT it computes is `Thm/C09.inplace_decoder_on_padded_text`; the tie to the
     real function is the hook `verif::parse_string_inplace`, compared on every C09 case.) -/
-theorem inplace_decoder_stays_inside_its_buffer (lossy : Bool) (t : Buf) (i : Nat) (hi : i ≤ t.size) :
-    (match StrIn.run lossy (StrIn.pad t) i with
+theorem inplace_decoder_stays_inside_its_buffer (lossy : Bool) (t mem0 : Buf) (i : Nat) (hi : i ≤ t.size)
+    (h0 : mem0.size = (StrIn.pad t).size) (hag : ∀ k, i ≤ k → mem0[k]? = (StrIn.pad t)[k]?) :
+    (match StrIn.run lossy mem0 i with
      | .fault => true
      | .fuel => true
      | _ => false) = false := by
-  have h := StrIn.run_spec lossy t i hi
-  generalize StrIn.run lossy (StrIn.pad t) i = r at h ⊢
+  have h := StrIn.run_spec_mem lossy t mem0 i hi h0 hag
+  generalize StrIn.run lossy mem0 i = r at h ⊢
   cases r with
   | ok mem cnt e => rfl
   | err c => rfl
